@@ -6,3 +6,408 @@ From JB Require Import Constants Bytes Utf8 Num NumProofs Value Codec Order Orde
   TreeOps Path PathSem Dispatch Walk WalkProofs CompareWalk CompareWalkProofs SelWalk.
 Open Scope N_scope.
 Set Default Timeout 120.
+
+(* ---------------------------------------------------------------- outcomes related pointwise *)
+Definition res_rel {A B} (R : A -> B -> Prop) (a : res A) (b : res B) : Prop :=
+  match a, b with
+  | Ok x, Ok y => R x y
+  | Err e, Err e' => e = e'
+  | Panic, Panic => True
+  | _, _ => False
+  end.
+
+Lemma res_rel_bind {A B C D} (R : A -> B -> Prop) (S : C -> D -> Prop) a b f g :
+  res_rel R a b -> (forall x y, R x y -> res_rel S (f x) (g y)) -> res_rel S (bind a f) (bind b g).
+Proof. destruct a, b; cbn [res_rel bind]; intros H K; try contradiction; auto. Qed.
+
+Lemma res_rel_eq {A} (a b : res A) : res_rel eq a b -> a = b.
+Proof. destruct a, b; cbn [res_rel]; intros H; try contradiction; congruence. Qed.
+Lemma res_rel_refl {A} (a : res A) : res_rel eq a a.
+Proof. destruct a; cbn [res_rel]; auto. Qed.
+
+Lemma flat_map_res_rel {A B C D} (R : A -> B -> Prop) (S : C -> D -> Prop) f g l l' :
+  Forall2 R l l' -> (forall x y, R x y -> res_rel (Forall2 S) (f x) (g y)) ->
+  res_rel (Forall2 S) (flat_map_res f l) (flat_map_res g l').
+Proof.
+  intros HF K. induction HF as [|x y l l' Hxy HF IH]; cbn [flat_map_res]; [constructor|].
+  apply (res_rel_bind (Forall2 S)); [apply K; exact Hxy|]. intros a b Hab.
+  apply (res_rel_bind (Forall2 S)); [exact IH|]. intros a2 b2 Hab2. cbn [res_rel]. apply Forall2_app; assumption.
+Qed.
+Lemma filter_res_rel {A B} (R : A -> B -> Prop) f g l l' :
+  Forall2 R l l' -> (forall x y, R x y -> res_rel eq (f x) (g y)) ->
+  res_rel (Forall2 R) (filter_res f l) (filter_res g l').
+Proof.
+  intros HF K. induction HF as [|x y l l' Hxy HF IH]; cbn [filter_res]; [constructor|].
+  apply (res_rel_bind eq); [apply K; exact Hxy|]. intros a b <-.
+  apply (res_rel_bind (Forall2 R)); [exact IH|]. intros a2 b2 Hab2. cbn [res_rel]. destruct a; [constructor|]; assumption.
+Qed.
+
+(* ---------------------------------------------------------------- a position denotes a sub-value *)
+(* the offsets of the position delimit exactly the payload of x inside the buffer (and, for a scalar position, the
+   type is the entry type of x).  x is well-formed and in the form the decoder yields (normalise x = x). *)
+Definition den (bs : list N) (p : position) (x : value) : Prop :=
+  wfb x = true /\ normalise x = x /\
+  match p with
+  | PosC off len => is_container x = true /\ placed bs x off /\ len = lenN (payload x)
+  | PosS ty off len => is_container x = false /\ ty = tag_of x /\ placed bs x off /\ len = lenN (payload x)
+  end.
+
+Lemma mkpos_den bs x off : wfb x = true -> normalise x = x -> placed bs x off -> den bs (mkpos (word x) off) x.
+Proof.
+  intros Hw Hn Hp. pose proof (wfb_size x Hw) as Hs. unfold mkpos, den.
+  rewrite (word_type x Hs), (word_len x Hs). destruct (tag_tests x) as (_ & _ & _ & _ & _ & Hc). rewrite Hc.
+  split; [exact Hw|]. split; [exact Hn|].
+  destruct x; cbn [is_container is_scalar negb]; repeat split; auto.
+Qed.
+
+(* lists *)
+Lemma nth_opt_app_len {A} (d : list A) x t : nth_opt (d ++ x :: t) (length d) = Some x.
+Proof. induction d as [|y d IH]; cbn [nth_opt app length]; [reflexivity|exact IH]. Qed.
+Lemma firstn_app_len {A} (d t : list A) : firstn (length d) (d ++ t) = d.
+Proof. rewrite firstn_app, Nat.sub_diag, firstn_all. cbn [firstn]. apply app_nil_r. Qed.
+Lemma map_split {A B} (f : A -> B) : forall dv o x tv, map f o = dv ++ x :: tv ->
+  exists d kx t, o = d ++ kx :: t /\ map f d = dv /\ f kx = x /\ map f t = tv.
+Proof.
+  induction dv as [|y dv IH]; intros o x tv H; destruct o as [|a o]; cbn [map app] in H; try discriminate H.
+  - injection H as H1 H2. exists [], a, o. repeat split; assumption.
+  - injection H as H1 H2. destruct (IH o x tv H2) as (d & kx & t & E1 & E2 & E3 & E4).
+    exists (a :: d), kx, t. repeat split; [rewrite E1; reflexivity|cbn [map]; rewrite H1, E2; reflexivity|exact E3|exact E4].
+Qed.
+Lemma map_id_Forall {A} (f : A -> A) l : map f l = l -> Forall (fun x => f x = x) l.
+Proof. induction l as [|x l IH]; cbn [map]; intros H; [constructor|]. injection H as H1 H2. constructor; auto. Qed.
+
+Definition good (x : value) : Prop := wfb x = true /\ normalise x = x.
+Lemma good_arr l : good (VArr l) -> Forall good l /\ lenN l < 536870912 /\ Forall (fun v => wf_size v = true) l.
+Proof.
+  intros [Hw Hn]. destruct (wf_arr l Hw) as [Ha Hl]. cbn [normalise] in Hn. injection Hn as Hn. apply map_id_Forall in Hn.
+  split; [|split; [exact Hl|]].
+  - rewrite Forall_forall in *. intros x Hx. split; auto.
+  - eapply Forall_impl; [|exact Ha]. intros v. apply wfb_size.
+Qed.
+Lemma good_obj o : good (VObj o) -> Forall good (vals o) /\ lenN o < 536870912 /\ obj_ok o.
+Proof.
+  intros [Hw Hn]. destruct (obj_ok_of_wf o Hw) as [Ho Hl]. destruct (wf_obj o Hw) as (Ha & _ & _).
+  cbn [normalise] in Hn. injection Hn as Hn. apply map_id_Forall in Hn.
+  split; [|split; assumption].
+  unfold vals. rewrite Forall_map. rewrite Forall_forall in *. intros kv Hkv. split; [apply (Ha kv Hkv)|].
+  specialize (Hn kv Hkv). destruct kv as [k x]. cbn [fst snd] in *. injection Hn as Hn. exact Hn.
+Qed.
+
+(* where the elements of an array / the member values of an object live *)
+Lemma arr_placed bs l off d x t : placed bs (VArr l) off -> l = d ++ x :: t ->
+  placed bs x (off + 4 + 4 * lenN l + sum_len d).
+Proof.
+  intros Hp El. pose proof (placed_elem bs l off (length d) x Hp) as P.
+  rewrite El in P at 1. rewrite nth_opt_app_len in P. specialize (P eq_refl).
+  rewrite El in P at 2. rewrite firstn_app_len in P. exact P.
+Qed.
+Lemma obj_placed bs o off dv x tv : placed bs (VObj o) off -> vals o = dv ++ x :: tv ->
+  placed bs x (off + 4 + 8 * lenN o + sum_keys o + sum_len dv).
+Proof.
+  intros Hp Ev. unfold vals in Ev. destruct (map_split snd dv o x tv Ev) as (d & [k x'] & t & Eo & E1 & E2 & _).
+  cbn [snd] in E2. subst x'. rewrite <- E1. apply (placed_val bs o off d k x t Hp Eo).
+Qed.
+
+(* the loop that turns value entry words into positions *)
+Lemma val_positions_den bs base vs :
+  (forall d x t, vs = d ++ x :: t -> placed bs x (base + sum_len d)) -> Forall good vs ->
+  forall todo done, vs = done ++ todo -> Forall2 (den bs) (val_positions (map word todo) (base + sum_len done)) todo.
+Proof.
+  intros Hloc Hg. induction todo as [|x todo IH]; intros done E; cbn [map val_positions]; [constructor|].
+  assert (Hx : good x) by (rewrite E in Hg; apply Forall_app in Hg; destruct Hg as [_ Hg]; inversion Hg; assumption).
+  destruct Hx as [Hw Hn]. constructor.
+  - apply mkpos_den; auto. apply (Hloc done x todo E).
+  - rewrite (word_len x (wfb_size x Hw)).
+    specialize (IH (done ++ [x])). rewrite sum_len_app in IH. cbn [sum_len fold_right] in IH.
+    replace (base + sum_len done + lenN (payload x)) with (base + (sum_len done + (lenN (payload x) + 0))) by lia.
+    apply IH. rewrite E, <- app_assoc. reflexivity.
+Qed.
+
+(* ---------------------------------------------------------------- reads on a container that sits at `off` *)
+Lemma hdr_at_arr bs l off : placed bs (VArr l) off -> lenN l < 536870912 -> hdr_at bs off = Ok (arr_hdr l).
+Proof.
+  intros Hp Hn. unfold hdr_at. rewrite (rd_hdr_arr bs l off Hp Hn).
+  destruct Hp as (A & B & -> & ->). rewrite from_ok_in by reflexivity. reflexivity.
+Qed.
+Lemma hdr_at_obj bs o off : placed bs (VObj o) off -> lenN o < 536870912 -> hdr_at bs off = Ok (obj_hdr o).
+Proof.
+  intros Hp Hn. unfold hdr_at. rewrite (rd_hdr_obj bs o off Hp Hn).
+  destruct Hp as (A & B & -> & ->). rewrite from_ok_in by reflexivity. reflexivity.
+Qed.
+Lemma rd_arr_words bs l off : placed bs (VArr l) off -> Forall (fun v => wf_size v = true) l ->
+  rd_words_res bs (lenN l) (off + 4) = Ok (map word l).
+Proof.
+  intros (A & B & -> & ->) Hl. unfold rd_words_res. rewrite payload_arr.
+  replace (A ++ (be32 (arr_hdr l) ++ flat_map be32 (map word l) ++ flat_map payload l) ++ B)
+    with ((A ++ be32 (arr_hdr l)) ++ flat_map be32 (map word l) ++ (flat_map payload l ++ B)) by (rewrite <- !app_assoc; reflexivity).
+  pose proof (rd_words_words (A ++ be32 (arr_hdr l)) (map word l) (flat_map payload l ++ B) (words_of_values_ok l Hl)
+                (map word l) [] [] ltac:(rewrite app_nil_r; reflexivity)) as R.
+  rewrite lenN_nil, N.mul_0_r, N.add_0_r, N.add_0_l, lenN_map, lenN_app, lenN_be32 in R.
+  rewrite R; [reflexivity|]. rewrite !app_length, length_flat_words, !map_length. lia.
+Qed.
+Lemma rd_vws bs o off : placed bs (VObj o) off -> obj_ok o ->
+  rd_words_res bs (lenN o) (off + 4 + 4 * lenN o) = Ok (vws o).
+Proof.
+  intros (A & B & -> & ->) Ho. unfold rd_words_res. rewrite obj_regroup.
+  pose proof (rd_words_words (A ++ be32 (obj_hdr o)) (kws o ++ vws o) (keys_bytes o ++ flat_map payload (vals o) ++ B)
+                (obj_words_ok o Ho) (vws o) (kws o) [] ltac:(rewrite app_nil_r; reflexivity)) as R.
+  (* rd_words_words counts from |done|; the selector counts from 0: shift the counter *)
+  assert (Shift : forall fuel bs i len joff k, rd_words fuel bs (i + k) (len + k) joff = rd_words fuel bs i len joff).
+  { induction fuel as [|f IH]; intros bs0 i len joff k; cbn [rd_words]; [reflexivity|].
+    replace (i + k <? len + k) with (i <? len) by (destruct (i <? len) eqn:E1, (i + k <? len + k) eqn:E2; try reflexivity;
+      [apply N.ltb_lt in E1; apply N.ltb_ge in E2; lia|apply N.ltb_ge in E1; apply N.ltb_lt in E2; lia]).
+    destruct (i <? len); [|reflexivity]. destruct (read_u32 bs0 joff); [|reflexivity].
+    replace (i + k + 1) with (i + 1 + k) by lia. rewrite IH. reflexivity. }
+  rewrite len_kws, len_vws, lenN_app, lenN_be32 in R.
+  specialize (Shift (S (length ((A ++ be32 (obj_hdr o)) ++ flat_map be32 (kws o ++ vws o) ++ keys_bytes o ++ flat_map payload (vals o) ++ B)))
+                ((A ++ be32 (obj_hdr o)) ++ flat_map be32 (kws o ++ vws o) ++ keys_bytes o ++ flat_map payload (vals o) ++ B)
+                0 (lenN o) (lenN A + 4 + 4 * lenN o) (lenN o)).
+  rewrite N.add_0_l in Shift. rewrite <- Shift, R; [reflexivity|].
+  rewrite !app_length, length_flat_words, !app_length. unfold kws, vws. rewrite !map_length. lia.
+Qed.
+
+Lemma len_pos_nonempty {A} (l : list A) : (lenN l =? 0) = match l with [] => true | _ => false end.
+Proof. destruct l; [reflexivity|]. rewrite lenN_cons. apply N.eqb_neq. lia. Qed.
+
+(* ---------------------------------------------------------------- the step selectors on a denoting container position *)
+Lemma select_array_values_den bs off len x : den bs (PosC off len) x ->
+  res_rel (Forall2 (den bs)) (select_array_values_w bs off len) (Ok (match x with VArr l => l | _ => [x] end)).
+Proof.
+  intros D. pose proof D as (Hw & Hn & Hc & Hp & Hlen). unfold select_array_values_w.
+  destruct x as [| | | |l|o]; try discriminate Hc.
+  - destruct (good_arr l (conj Hw Hn)) as (Hg & Hl & Hs).
+    rewrite (hdr_at_arr bs l off Hp Hl). cbn [bind]. destruct (arr_hdr_facts l Hl) as (_ & -> & ->).
+    rewrite N.eqb_refl. cbn [negb]. rewrite (rd_arr_words bs l off Hp Hs). cbn [bind res_rel].
+    pose proof (val_positions_den bs (off + 4 + lenN l * 4) l) as V.
+    specialize (V ltac:(intros d x t E; replace (off + 4 + lenN l * 4) with (off + 4 + 4 * lenN l) by lia; apply (arr_placed bs l off d x t Hp E)) Hg l [] eq_refl).
+    cbn [sum_len fold_right] in V. rewrite N.add_0_r in V. exact V.
+  - destruct (good_obj o (conj Hw Hn)) as (Hg & Hl & Ho).
+    rewrite (hdr_at_obj bs o off Hp Hl). cbn [bind]. destruct (obj_hdr_facts o Hl) as (_ & -> & _).
+    change (OBJECT_CONTAINER_TAG =? ARRAY_CONTAINER_TAG) with false. cbn [negb res_rel]. constructor; [exact D|constructor].
+Qed.
+
+Lemma select_object_values_den bs off len x : den bs (PosC off len) x ->
+  res_rel (Forall2 (den bs)) (select_object_values_w bs off) (Ok (match x with VObj o => map snd o | _ => [] end)).
+Proof.
+  intros D. pose proof D as (Hw & Hn & Hc & Hp & Hlen). unfold select_object_values_w.
+  destruct x as [| | | |l|o]; try discriminate Hc.
+  - destruct (good_arr l (conj Hw Hn)) as (Hg & Hl & Hs).
+    rewrite (hdr_at_arr bs l off Hp Hl). cbn [bind]. destruct (arr_hdr_facts l Hl) as (_ & -> & _).
+    change (ARRAY_CONTAINER_TAG =? OBJECT_CONTAINER_TAG) with false. cbn [negb orb res_rel]. constructor.
+  - destruct (good_obj o (conj Hw Hn)) as (Hg & Hl & Ho).
+    rewrite (hdr_at_obj bs o off Hp Hl). cbn [bind]. destruct (obj_hdr_facts o Hl) as (_ & -> & ->).
+    rewrite N.eqb_refl. cbn [negb orb]. rewrite len_pos_nonempty.
+    destruct o as [|kv0 o0]; [cbn [res_rel map]; constructor|]. set (o := kv0 :: o0) in *.
+    rewrite (rd_kws bs o off Hp Ho). cbn [bind]. rewrite (rd_vws bs o off Hp Ho). cbn [bind res_rel].
+    rewrite (sum_je_len_kws o Ho).
+    pose proof (val_positions_den bs (off + 4 + lenN o * 8 + sum_keys o) (vals o)) as V.
+    specialize (V ltac:(intros d x t E; replace (off + 4 + lenN o * 8) with (off + 4 + 8 * lenN o) by lia; apply (obj_placed bs o off d x t Hp E)) Hg (vals o) [] eq_refl).
+    cbn [sum_len fold_right] in V. rewrite N.add_0_r in V. unfold vals in V. rewrite map_map in V. exact V.
+Qed.
+
+(* ---------------------------------------------------------------- member by name *)
+Fixpoint find_idx (name : list N) (o : list (list N * value)) (i : N) : option N :=
+  match o with [] => None | (k, _) :: r => if bytes_eqb name k then Some i else find_idx name r (i + 1) end.
+Lemma find_idx_ge name : forall o i j, find_idx name o i = Some j -> i <= j.
+Proof.
+  induction o as [|[k x] o IH]; intros i j H; cbn [find_idx] in H; [discriminate H|].
+  destruct (bytes_eqb name k); [injection H as <-; lia|]. specialize (IH _ _ H). lia.
+Qed.
+Lemma bytes_eqb_len a b : bytes_eqb a b = true -> lenN a = lenN b.
+Proof. rewrite bytes_eqb_cmp. destruct (bytes_cmp a b) eqn:E; try discriminate. apply bytes_cmp_eq in E. subst b. reflexivity. Qed.
+
+Lemma name_scan_found bs name : forall kws i off j, name_scan bs name kws i off (Some j) = Ok (off + sum_je_len kws, Some j).
+Proof.
+  induction kws as [|kw kws IH]; intros i off j; cbn [name_scan sum_je_len fold_right]; [rewrite N.add_0_r; reflexivity|].
+  rewrite orb_true_r. rewrite IH. fold (sum_je_len kws). f_equal. f_equal. lia.
+Qed.
+Lemma obj_ok_app a b : obj_ok (a ++ b) -> obj_ok a /\ obj_ok b.
+Proof. unfold obj_ok. apply Forall_app. Qed.
+
+Lemma name_scan_obj bs o off name : placed bs (VObj o) off -> obj_ok o ->
+  forall todo done, o = done ++ todo ->
+  name_scan bs name (kws todo) (lenN done) (off + 4 + 8 * lenN o + sum_keys done) None
+  = Ok (off + 4 + 8 * lenN o + sum_keys o, find_idx name todo (lenN done)).
+Proof.
+  intros Hp Ho. induction todo as [|[k x] todo IH]; intros done Eo; cbn [kws map name_scan find_idx].
+  - rewrite app_nil_r in Eo. subst done. reflexivity.
+  - fold (kws todo). cbn [fst].
+    assert (Ho2 : obj_ok ((k, x) :: todo)) by (rewrite Eo in Ho; apply obj_ok_app in Ho; apply Ho).
+    assert (Hk : lenN k < 268435456) by (inversion Ho2 as [|? ? [_ Hk] _]; exact Hk).
+    assert (Ho3 : obj_ok todo) by (inversion Ho2; assumption).
+    rewrite (key_word_len k Hk).
+    assert (Next : name_scan bs name (kws todo) (lenN done + 1) (off + 4 + 8 * lenN o + sum_keys done + lenN k) None
+                   = Ok (off + 4 + 8 * lenN o + sum_keys o, find_idx name todo (lenN done + 1))).
+    { specialize (IH (done ++ [(k, x)])). rewrite lenN_app, lenN_cons, lenN_nil, sum_keys_app in IH.
+      cbn [sum_keys fold_right fst] in IH.
+      replace (lenN done + (1 + 0)) with (lenN done + 1) in IH by lia.
+      replace (off + 4 + 8 * lenN o + (sum_keys done + (lenN k + 0))) with (off + 4 + 8 * lenN o + sum_keys done + lenN k) in IH by lia.
+      apply IH. rewrite Eo, <- app_assoc. reflexivity. }
+    destruct (lenN name =? lenN k) eqn:EL; cbn [negb orb].
+    + destruct (placed_key bs o off done k x todo Hp Eo) as (A' & B' & Eb & LA).
+      assert (F : from_ok bs (off + 4 + 8 * lenN o + sum_keys done) = Ok tt) by (rewrite Eb; apply from_ok_in; rewrite LA; reflexivity).
+      assert (S1 : slice bs (off + 4 + 8 * lenN o + sum_keys done) (lenN k) = Some k)
+        by (rewrite Eb; apply slice_mid'; [rewrite LA; reflexivity|reflexivity]).
+      rewrite F, S1. cbn [bind]. destruct (bytes_eqb name k); [|exact Next].
+      rewrite name_scan_found. rewrite (sum_je_len_kws todo Ho3). f_equal. f_equal.
+      rewrite Eo, sum_keys_app. cbn [sum_keys fold_right fst]. fold (sum_keys todo). lia.
+    + assert (Hne : bytes_eqb name k = false).
+      { destruct (bytes_eqb name k) eqn:E; [|reflexivity]. apply bytes_eqb_len in E. apply N.eqb_neq in EL. contradiction. }
+      rewrite Hne. exact Next.
+Qed.
+
+Lemma pick_val_obj bs o base name :
+  (forall d k x t, o = d ++ (k, x) :: t -> placed bs x (base + sum_len (vals d))) -> Forall good (vals o) ->
+  forall todo done, o = done ++ todo ->
+  match find_idx name todo (lenN done) with
+  | Some idx => exists x, assoc_lookup name todo = Some x /\
+                  Forall2 (den bs) (pick_val (vws todo) (lenN done) idx (base + sum_len (vals done))) [x]
+  | None => assoc_lookup name todo = None
+  end.
+Proof.
+  intros Hloc Hg. induction todo as [|[k y] todo IH]; intros done Eo; cbn [find_idx assoc_lookup vws map pick_val]; [reflexivity|].
+  fold (vws todo). cbn [snd].
+  assert (Hy : good y).
+  { rewrite Eo in Hg. unfold vals in Hg. rewrite map_app in Hg. apply Forall_app in Hg. destruct Hg as [_ Hg]. inversion Hg; assumption. }
+  destruct (bytes_eqb name k).
+  - exists y. split; [reflexivity|]. rewrite N.eqb_refl. constructor; [|constructor].
+    destruct Hy as [Hw Hn]. apply mkpos_den; auto. apply (Hloc done k y todo Eo).
+  - specialize (IH (done ++ [(k, y)])). rewrite lenN_app, lenN_cons, lenN_nil in IH.
+    replace (lenN done + (1 + 0)) with (lenN done + 1) in IH by lia.
+    specialize (IH ltac:(rewrite Eo, <- app_assoc; reflexivity)).
+    destruct (find_idx name todo (lenN done + 1)) as [idx|] eqn:F; [|exact IH].
+    destruct IH as (x & Hx & HF). exists x. split; [exact Hx|].
+    pose proof (find_idx_ge name todo _ _ F) as G.
+    assert (E : (lenN done =? idx) = false) by (apply N.eqb_neq; lia). rewrite E.
+    destruct Hy as [Hw Hn]. rewrite (word_len y (wfb_size y Hw)).
+    unfold vals in HF. rewrite map_app, sum_len_app in HF. cbn [map snd sum_len fold_right] in HF. fold (vals done) in HF.
+    replace (base + sum_len (vals done) + lenN (payload y)) with (base + (sum_len (vals done) + (lenN (payload y) + 0))) by lia.
+    exact HF.
+Qed.
+
+Lemma select_by_name_den bs off len x name : den bs (PosC off len) x ->
+  res_rel (Forall2 (den bs)) (select_by_name_w bs off name)
+          (Ok (match x with VObj o => match assoc_lookup name o with Some y => [y] | None => [] end | _ => [] end)).
+Proof.
+  intros D. pose proof D as (Hw & Hn & Hc & Hp & Hlen). unfold select_by_name_w.
+  destruct x as [| | | |l|o]; try discriminate Hc.
+  - destruct (good_arr l (conj Hw Hn)) as (Hg & Hl & Hs).
+    rewrite (hdr_at_arr bs l off Hp Hl). cbn [bind]. destruct (arr_hdr_facts l Hl) as (_ & -> & _).
+    change (ARRAY_CONTAINER_TAG =? OBJECT_CONTAINER_TAG) with false. cbn [negb orb res_rel]. constructor.
+  - destruct (good_obj o (conj Hw Hn)) as (Hg & Hl & Ho).
+    rewrite (hdr_at_obj bs o off Hp Hl). cbn [bind]. destruct (obj_hdr_facts o Hl) as (_ & -> & ->).
+    rewrite N.eqb_refl. cbn [negb orb]. rewrite len_pos_nonempty.
+    destruct o as [|kv0 o0]; [cbn [res_rel assoc_lookup]; constructor|]. set (o := kv0 :: o0) in *.
+    rewrite (rd_kws bs o off Hp Ho). cbn [bind]. rewrite (rd_vws bs o off Hp Ho). cbn [bind].
+    pose proof (name_scan_obj bs o off name Hp Ho o [] eq_refl) as S. cbn [sum_keys fold_right] in S.
+    rewrite lenN_nil, N.add_0_r in S. replace (off + 4 + lenN o * 8) with (off + 4 + 8 * lenN o) by lia.
+    rewrite S. cbn [bind].
+    pose proof (pick_val_obj bs o (off + 4 + 8 * lenN o + sum_keys o) name
+                  (fun d k y t E => placed_val bs o off d k y t Hp E) Hg o [] eq_refl) as P.
+    cbn [vals map sum_len fold_right] in P. rewrite lenN_nil, N.add_0_r in P.
+    destruct (find_idx name o 0) as [idx|].
+    + destruct P as (y & -> & HF). cbn [res_rel]. exact HF.
+    + rewrite P. cbn [res_rel]. constructor.
+Qed.
+
+(* ---------------------------------------------------------------- elements by index *)
+Lemma offsets_nth : forall (l : list value), Forall (fun v => wf_size v = true) l -> forall k base x, nth_opt l k = Some x ->
+  nth_opt (offsets_of (map word l) base) k = Some (base + sum_len (firstn k l)) /\ nth_opt (map word l) k = Some (word x).
+Proof.
+  induction l as [|y l IH]; intros Hl k base x H; [destruct k; discriminate H|].
+  inversion Hl as [|? ? Hy Hl']; subst. destruct k as [|k]; cbn [nth_opt map offsets_of firstn sum_len fold_right] in *.
+  - injection H as <-. rewrite N.add_0_r. split; reflexivity.
+  - destruct (IH Hl' k (base + je_len (word y)) x H) as [E1 E2]. rewrite E1, E2. split; [|reflexivity].
+    rewrite (word_len y Hy). fold (sum_len (firstn k l)). f_equal. lia.
+Qed.
+Lemma nth_opt_lt {A} : forall (l : list A) k, (k < length l)%nat -> exists x, nth_opt l k = Some x.
+Proof.
+  induction l as [|y l IH]; intros k H; cbn [length] in H; [lia|]. destruct k as [|k]; cbn [nth_opt]; [exists y; reflexivity|].
+  apply IH. lia.
+Qed.
+
+Lemma pick_indices_den bs l base : (forall d x t, l = d ++ x :: t -> placed bs x (base + sum_len d)) -> Forall good l ->
+  forall idxs, Forall (fun k => (k < length l)%nat) idxs ->
+  res_rel (Forall2 (den bs)) (pick_indices (map word l) (offsets_of (map word l) base) idxs)
+          (Ok (flat_map (fun k => match nth_opt l k with Some x => [x] | None => [] end) idxs)).
+Proof.
+  intros Hloc Hg.
+  assert (Hs : Forall (fun v => wf_size v = true) l) by (eapply Forall_impl; [|exact Hg]; intros v [Hv _]; apply wfb_size; exact Hv).
+  induction idxs as [|k idxs IH]; intros Hk; cbn [pick_indices flat_map]; [constructor|].
+  inversion Hk as [|? ? Hk1 Hk2]; subst. destruct (nth_opt_lt l k Hk1) as (x & Ex).
+  destruct (offsets_nth l Hs k base x Ex) as [E1 E2]. rewrite E1, E2, Ex.
+  specialize (IH Hk2). destruct (pick_indices (map word l) (offsets_of (map word l) base) idxs) as [rest| |]; cbn [res_rel bind] in *; try contradiction; try exact IH.
+  constructor; [|exact IH].
+  destruct (nth_opt_split l k x Ex) as (pre & post & El & _ & Ef). rewrite Ef.
+  assert (Hx : good x) by (rewrite El in Hg; apply Forall_app in Hg; destruct Hg as [_ Hg]; inversion Hg; assumption).
+  destruct Hx as [Hw Hn]. apply mkpos_den; auto. apply (Hloc pre x post El).
+Qed.
+
+Lemma range_from_bounds : forall c a k, In k (range_from a c) -> (a <= k < a + c)%nat.
+Proof.
+  induction c as [|c IH]; intros a k H; cbn [range_from In] in H; [contradiction|].
+  destruct H as [<-|H]; [lia|]. specialize (IH _ _ H). lia.
+Qed.
+Lemma index_positions_lt len a k : (0 < len)%Z -> In k (index_positions len a) -> (Z.of_nat k < len)%Z.
+Proof.
+  intros Hlen. destruct a as [i|s e]; cbn [index_positions].
+  - destruct ((0 <=? resolve_index i len) && (resolve_index i len <? len))%Z eqn:E; [|intros []].
+    apply andb_true_iff in E. destruct E as [E1 E2]. apply Z.leb_le in E1. apply Z.ltb_lt in E2.
+    intros [<-|[]]. lia.
+  - destruct ((resolve_index e len <? resolve_index s len) || (len <=? resolve_index s len) || (resolve_index e len <? 0))%Z eqn:E; [intros []|].
+    apply orb_false_iff in E. destruct E as [E E3]. apply orb_false_iff in E. destruct E as [E1 E2].
+    apply Z.ltb_ge in E1. apply Z.leb_gt in E2. apply Z.ltb_ge in E3.
+    intros H. apply range_from_bounds in H. lia.
+Qed.
+Lemma index_empty len a : index_nonempty len a = false -> index_positions len a = [].
+Proof.
+  destruct a as [i|s e]; cbn [index_nonempty index_positions]; intros H; [rewrite H; reflexivity|].
+  apply negb_false_iff in H. rewrite H. reflexivity.
+Qed.
+Lemma indices_empty len ixs : existsb (index_nonempty len) ixs = false -> flat_map (index_positions len) ixs = [].
+Proof.
+  induction ixs as [|a ixs IH]; cbn [existsb flat_map]; intros H; [reflexivity|].
+  apply orb_false_iff in H. destruct H as [H1 H2]. rewrite (index_empty len a H1), (IH H2). reflexivity.
+Qed.
+Lemma lenZ_lenN {A} (l : list A) : Z.of_N (lenN l) = lenZ l.
+Proof. unfold lenZ, lenN. apply nat_N_Z. Qed.
+
+Lemma select_by_indices_den bs off len x ixs : den bs (PosC off len) x ->
+  res_rel (Forall2 (den bs)) (select_by_indices_w bs off ixs)
+          (Ok (match x with VArr l => select_indices l ixs | _ => [] end)).
+Proof.
+  intros D. pose proof D as (Hw & Hn & Hc & Hp & Hlen). unfold select_by_indices_w.
+  destruct x as [| | | |l|o]; try discriminate Hc.
+  - destruct (good_arr l (conj Hw Hn)) as (Hg & Hl & Hs).
+    rewrite (hdr_at_arr bs l off Hp Hl). cbn [bind]. destruct (arr_hdr_facts l Hl) as (_ & -> & ->).
+    rewrite N.eqb_refl. cbn [negb orb]. rewrite len_pos_nonempty.
+    destruct l as [|y0 l0]; [cbn [res_rel select_indices]; constructor|]. set (l := y0 :: l0) in *.
+    rewrite lenZ_lenN. unfold select_indices. change (match l with [] => [] | _ :: _ => ?a end) with a.
+    destruct (existsb (index_nonempty (lenZ l)) ixs) eqn:EX; cbn [negb].
+    2:{ rewrite (indices_empty _ _ EX). cbn [flat_map res_rel]. constructor. }
+    rewrite (rd_arr_words bs l off Hp Hs). cbn [bind].
+    apply (pick_indices_den bs l (off + 4 + lenN l * 4)); [|exact Hg|].
+    + intros d x t E. replace (off + 4 + lenN l * 4) with (off + 4 + 4 * lenN l) by lia. apply (arr_placed bs l off d x t Hp E).
+    + apply Forall_forall. intros k Hk. apply in_flat_map in Hk. destruct Hk as (a & _ & Hk).
+      apply index_positions_lt in Hk; [unfold lenZ in Hk; lia|]. unfold lenZ, l. cbn [length]. lia.
+  - destruct (good_obj o (conj Hw Hn)) as (Hg & Hl & Ho).
+    rewrite (hdr_at_obj bs o off Hp Hl). cbn [bind]. destruct (obj_hdr_facts o Hl) as (_ & -> & _).
+    change (OBJECT_CONTAINER_TAG =? ARRAY_CONTAINER_TAG) with false. cbn [negb orb res_rel]. constructor.
+Qed.
+
+(* ---------------------------------------------------------------- one step on one position = select_step on the value *)
+Theorem step_pos_den bs p pos x : den bs pos x ->
+  res_rel (Forall2 (den bs)) (step_pos_w bs p pos) (select_step p x).
+Proof.
+  intros D. pose proof D as (Hw & Hn & Hm). unfold step_pos_w, select_step. destruct pos as [off len|ty off len].
+  - destruct Hm as (Hc & _). rewrite Hc. unfold select_path_w.
+    destruct p as [| | | |n|n|n|ixs|e|e]; try exact I.
+    + apply (select_object_values_den bs off len x D).
+    + apply (select_array_values_den bs off len x D).
+    + apply (select_by_name_den bs off len x n D).
+    + apply (select_by_name_den bs off len x n D).
+    + apply (select_by_name_den bs off len x n D).
+    + apply (select_by_indices_den bs off len x ixs D).
+  - destruct Hm as (Hc & _). rewrite Hc.
+    destruct p; cbn [res_rel]; try constructor; try exact D; constructor.
+Qed.
